@@ -887,3 +887,92 @@ func (h *H) Restart() error {
 	h.emit("Z restart")
 	return nil
 }
+
+// ---------------------------------------------------------------- directed shapes (findings)
+
+// freeCoins lists mature standard coins of the best chain that no live pending transaction spends,
+// owned by a wallet or not.
+func (h *H) freeCoins(owned bool) []src {
+	own := h.ownedSh()
+	spent := spentByPool(h.livePool())
+	var l []src
+	for _, c := range h.matureSorted(h.N.Height() + 1) {
+		if _, s := spent[c.Op]; s || c.Class != ClsStd || c.Val < 100000 {
+			continue
+		}
+		if _, o := own[c.Sh]; o == owned {
+			l = append(l, src{op: c.Op, val: c.Val, class: c.Class, param: c.Param, sh: c.Sh, owned: o})
+		}
+	}
+	return l
+}
+
+// mineNow attaches a block holding exactly the given transactions (plus the coinbase) and lets the wallet process it.
+func (h *H) mineNow(txs []*wire.MsgTx) error {
+	b := h.BuildBlockP(0, txs)
+	if err := h.Attach(b); err != nil {
+		return err
+	}
+	h.Process(b)
+	return nil
+}
+
+// Scenario plays one directed shape; it returns false when the chain does not offer the coins it needs yet.
+func (h *H) Scenario(name string) (bool, error) {
+	if h.Stale {
+		h.Process(h.N.Tip())
+	}
+	switch name {
+	case "simul":
+		// two pending transactions share input a; a third transaction confirms that double-spends
+		// only the first one's other input: removing the first deletes the whole key of a
+		own := h.freeCoins(true)
+		if len(own) < 3 {
+			return false, nil
+		}
+		a, b, c := own[0], own[1], own[2]
+		t1 := h.buildFrom([]src{a, b}, 60)
+		t2 := h.buildFrom([]src{a, c}, 60)
+		h.defineTx(t1)
+		h.defineTx(t2)
+		h.Receive(t1)
+		h.Receive(t2)
+		t3 := h.buildFrom([]src{b}, 60)
+		h.defineTx(t3)
+		if err := h.mineNow([]*wire.MsgTx{t3}); err != nil {
+			return false, err
+		}
+	case "mined":
+		// a transaction first seen in a block (it spends a wallet coin and pays strangers) is delivered as unconfirmed afterwards
+		own := h.freeCoins(true)
+		if len(own) < 1 {
+			return false, nil
+		}
+		t := h.buildFrom([]src{own[0]}, 0)
+		h.defineTx(t)
+		if err := h.mineNow([]*wire.MsgTx{t}); err != nil {
+			return false, err
+		}
+		h.Receive(t)
+	case "foreign":
+		// an incoming payment is double-spent by its sender in a transaction that does not concern the wallet
+		fr := h.freeCoins(false)
+		if len(fr) < 1 || len(h.ownedSh()) == 0 {
+			return false, nil
+		}
+		t := h.buildFrom([]src{fr[0]}, 100)
+		h.defineTx(t)
+		if h.Receive(t) != "rel" {
+			return false, nil
+		}
+		t2 := h.buildFrom([]src{fr[0]}, 0)
+		h.defineTx(t2)
+		if err := h.mineNow([]*wire.MsgTx{t2}); err != nil {
+			return false, err
+		}
+	default:
+		return true, nil
+	}
+	h.QueryP(false, false)
+	return true, nil
+}
